@@ -151,17 +151,26 @@ func dirNext(c *Ctx, fn *ssa.Function) {
 		return
 	}
 	l := loops[0]
-	// the loop must contain no inner cycles (paths are then a complete enumeration)
+	bodyB := newBinder(c)
+	bodyB.showBodies = true
+	// a fallible step: a call whose last result is an error
+	errIndex := func(call *ssa.Call) int {
+		t, ok := call.Type().(*types.Tuple)
+		if !ok || t.Len() < 2 || t.At(t.Len()-1).Type().String() != "error" {
+			return -1
+		}
+		return t.Len() - 1
+	}
 	nPaths := 0
 	var problems []string
-	sawReturnValue, sawContinueAfterReadErr, sawContinueAfterParseErr, sawReturnNil := false, false, false, false
+	sawReturnValue, sawSkip, sawReturnNil := false, false, false
 	nPaths = acyclicPaths(l.Header, func(path []*ssa.BasicBlock, looped bool) {
 		var removals, frontReadsBeforeRemoval, otherStores int
 		var emptyTest string // "", "true", "false"
-		var readCall, parseCall *ssa.Call
-		var readErr, parseErr string
 		removed := false
 		var frontVal ssa.Value
+		failed, succeeded := map[*ssa.Call]bool{}, map[*ssa.Call]bool{}
+		var steps []*ssa.Call
 		for i, b := range path {
 			for _, in := range b.Instrs {
 				switch x := in.(type) {
@@ -172,7 +181,7 @@ func dirNext(c *Ctx, fn *ssa.Function) {
 								frontReadsBeforeRemoval++
 								frontVal = x
 							} else {
-								problems = append(problems, p.ipos(x)+": element of fileNames read other than the front element before its removal")
+								problems = append(problems, p.ipos(x)+": element of the list of names read other than the front element before its removal")
 							}
 						}
 					}
@@ -191,11 +200,8 @@ func dirNext(c *Ctx, fn *ssa.Function) {
 						}
 					}
 				case *ssa.Call:
-					switch calleeName(x) {
-					case "os.ReadFile":
-						readCall = x
-					case modPath + ".ParseRealtime":
-						parseCall = x
+					if errIndex(x) >= 0 {
+						steps = append(steps, x)
 					}
 				}
 			}
@@ -216,14 +222,12 @@ func dirNext(c *Ctx, fn *ssa.Function) {
 						}
 					}
 					// error tests
-					if ex, isEx := bo.X.(*ssa.Extract); isEx && ex.Index == 1 && isNilConst(bo.Y) {
-						isErr := (bo.Op == token.NEQ) == val
-						if cc, ok := ex.Tuple.(*ssa.Call); ok {
-							if cc == readCall {
-								readErr = fmt.Sprint(isErr)
-							}
-							if cc == parseCall {
-								parseErr = fmt.Sprint(isErr)
+					if ex, isEx := bo.X.(*ssa.Extract); isEx && isNilConst(bo.Y) {
+						if cc, ok := ex.Tuple.(*ssa.Call); ok && ex.Index == errIndex(cc) {
+							if (bo.Op == token.NEQ) == val {
+								failed[cc] = true
+							} else {
+								succeeded[cc] = true
 							}
 						}
 					}
@@ -239,9 +243,9 @@ func dirNext(c *Ctx, fn *ssa.Function) {
 				return
 			}
 		}
-		desc := fmt.Sprintf("path[empty=%s readErr=%s parseErr=%s looped=%v]", emptyTest, readErr, parseErr, looped)
+		desc := fmt.Sprintf("path[empty=%s failed=%d ok=%d looped=%v]", emptyTest, len(failed), len(succeeded), looped)
 		if otherStores > 0 {
-			problems = append(problems, desc+": fileNames is assigned something other than fileNames[1:]")
+			problems = append(problems, desc+": the list of names is assigned something other than list[1:]")
 		}
 		if emptyTest == "" {
 			problems = append(problems, desc+": the path does not test whether file names remain")
@@ -265,42 +269,44 @@ func dirNext(c *Ctx, fn *ssa.Function) {
 		if frontReadsBeforeRemoval < 1 {
 			problems = append(problems, desc+": the front file name is not read before it is removed")
 		}
-		if readCall != nil && frontVal != nil && !derivedFrom(readCall.Call.Args[0], map[ssa.Value]bool{frontVal: true}, true) {
-			problems = append(problems, desc+": the file that is read is not the front file name")
-		}
 		if ret != nil && isNilConst(ret.Results[0]) {
 			problems = append(problems, desc+": the stream ends (return nil) although file names remain: a bad file must be skipped, not end the stream")
 			return
 		}
-		if readErr == "true" {
-			if !looped {
-				problems = append(problems, desc+": a read error leaves the loop")
-			} else {
-				sawContinueAfterReadErr = true
-			}
-			return
-		}
-		if parseErr == "true" {
-			if !looped {
-				problems = append(problems, desc+": a parse error leaves the loop")
-			} else {
-				sawContinueAfterParseErr = true
-			}
-			return
-		}
 		if looped {
-			problems = append(problems, desc+": a successfully parsed file is dropped (loop continues without returning it)")
+			if len(failed) == 0 {
+				problems = append(problems, desc+": a file is dropped although reading and parsing it did not fail (the loop continues without returning it)")
+			} else {
+				sawSkip = true
+			}
 			return
 		}
-		// successful return: value is the parse of the bytes read from that file
+		// a value is returned: nothing failed on the way, and the value is the parse of the bytes read from the front file
+		if len(failed) > 0 {
+			problems = append(problems, desc+": a value is returned although a step failed")
+			return
+		}
 		okVal := false
-		if ex, ok := ret.Results[0].(*ssa.Extract); ok && ex.Index == 0 && parseCall != nil && ex.Tuple == ssa.Value(parseCall) {
-			if bx, ok := parseCall.Call.Args[0].(*ssa.Extract); ok && bx.Index == 0 && readCall != nil && bx.Tuple == ssa.Value(readCall) {
-				okVal = readErr == "false" && parseErr == "false"
+		if ex, ok := ret.Results[0].(*ssa.Extract); ok && ex.Index == 0 {
+			if fc, ok := ex.Tuple.(*ssa.Call); ok && succeeded[fc] {
+				e := bodyB.bind(ret.Results[0])
+				derives := frontVal != nil
+				if derives {
+					derives = false
+					for _, a := range fc.Call.Args {
+						if derivedFrom(a, map[ssa.Value]bool{frontVal: true}, true) {
+							derives = true
+						}
+					}
+				}
+				// the bytes parsed are the bytes read: ParseRealtime(os.ReadFile(<path from the front name>)#0, ...)#0
+				if derives && strings.Contains(e, "ParseRealtime(os.ReadFile(") {
+					okVal = true
+				}
 			}
 		}
 		if !okVal {
-			problems = append(problems, desc+": the value returned is not the successful parse of the bytes just read")
+			problems = append(problems, desc+": the value returned is not the successful parse of the bytes just read from the front file")
 		} else {
 			sawReturnValue = true
 		}
@@ -312,17 +318,60 @@ func dirNext(c *Ctx, fn *ssa.Function) {
 	if !sawReturnValue {
 		problems = append(problems, "no path returns a parsed file")
 	}
-	if !sawContinueAfterReadErr {
-		problems = append(problems, "no path skips an unreadable file")
+	if !sawSkip {
+		problems = append(problems, "no path skips a file that cannot be read or parsed")
 	}
-	if !sawContinueAfterParseErr {
-		problems = append(problems, "no path skips an unparseable file")
+	// both failures are noticed: the error that decides the skip is os.ReadFile's or ParseRealtime's, wherever the two
+	// calls are made (in Next itself or in a helper that hands their errors on)
+	readSeen, parseSeen := false, false
+	for _, g := range c.regionOf(fn) {
+		for _, b := range g.Blocks {
+			for _, in := range b.Instrs {
+				call, ok := in.(*ssa.Call)
+				if !ok {
+					continue
+				}
+				name := calleeName(call)
+				if name != "os.ReadFile" && name != modPath+".ParseRealtime" {
+					continue
+				}
+				noticed := false
+				for _, r := range *call.Referrers() {
+					ex, isEx := r.(*ssa.Extract)
+					if !isEx || ex.Index != 1 {
+						continue
+					}
+					for _, r2 := range *ex.Referrers() {
+						switch y := r2.(type) {
+						case *ssa.BinOp:
+							if isNilConst(y.Y) || isNilConst(y.X) {
+								noticed = true
+							}
+						case *ssa.Return:
+							noticed = true // handed on to the caller, which tests it (checked on the paths above)
+							_ = y
+						}
+					}
+				}
+				if name == "os.ReadFile" {
+					readSeen = noticed
+				} else {
+					parseSeen = noticed
+				}
+			}
+		}
+	}
+	if !readSeen {
+		problems = append(problems, "the error of os.ReadFile is not looked at: an unreadable file is not skipped")
+	}
+	if !parseSeen {
+		problems = append(problems, "the error of ParseRealtime is not looked at: an unparseable file is not skipped")
 	}
 	c.Check(len(problems) == 0, "DIR", fname, "iterator protocol", pos,
-		fmt.Sprintf("all %d paths through the retry loop: empty list -> end; otherwise exactly one front removal after reading the front name, read/parse errors continue, success returns the parse of that file", nPaths),
+		fmt.Sprintf("all %d paths through the retry loop: empty list -> end; otherwise exactly one front removal after reading the front name, a failed read or parse continues, success returns the parse of that file", nPaths),
 		strings.Join(dedup(problems), "; "))
 	// G4: the loop is a consumer loop: every trip around it removes one element (established above) and it exits on empty
-	c.Check(len(problems) == 0, "G4", fname, "retry loop terminates", pos, "consumer loop: each iteration shortens fileNames by one, exit on empty", "loop variant (one removal per iteration, exit on empty) not established")
+	c.Check(len(problems) == 0, "G4", fname, "retry loop terminates", pos, "consumer loop: each iteration shortens the list by one, exit on empty", "loop variant (one removal per iteration, exit on empty) not established")
 }
 
 func dedup(s []string) []string {
